@@ -560,9 +560,9 @@ impl Duration {
             && !hours_to_days_may_occur
             && self.minutes().abs() < 60.0
             && self.seconds().abs() < 60.0
-            && self.milliseconds() < 1000.0
-            && self.microseconds() < 1000.0
-            && self.nanoseconds() < 1000.0
+            && self.milliseconds().abs() < 1000.0
+            && self.microseconds().abs() < 1000.0
+            && self.nanoseconds().abs() < 1000.0
         {
             // a. NOTE: The above conditions mean that the operation will have no effect: the
             // smallest unit and rounding increment will leave the total duration unchanged,
@@ -659,8 +659,11 @@ impl Duration {
                     resolved_options
                 );
 
+                // NOTE: Days are 24 hours long without a relative point, so they are folded into the
+                // time duration first and the exact total is rounded (ToInternalDurationRecordWith24HourDays).
+                let norm = norm.add_days(self.days().as_integer_if_integral()?)?;
                 // c. Let roundRecord be ? RoundTimeDuration(duration.[[Days]], norm, roundingIncrement, smallestUnit, roundingMode).
-                let (round_record, _) = norm.round(self.days(), resolved_options)?;
+                let (round_record, _) = norm.round(FiniteF64::default(), resolved_options)?;
                 // d. Let normWithDays be ? Add24HourDaysToNormalizedTimeDuration(roundRecord.[[NormalizedDuration]].[[NormalizedTime]],
                 // roundRecord.[[NormalizedDuration]].[[Days]]).
                 let norm_with_days = round_record
